@@ -234,5 +234,16 @@ def checkSel (work : Work) (fired : Option Kind) (out : Outcome) : List String :
       | .panic v' => if v = v' then [] else ["re-raised panic is not the work's panic"]
       | _ => ["panic although the work did not panic"])
 
+/-- fx.DoWithTimeout under real deadlines (ms, harness clock now = 0): the call must end by itself iff the timeout or the
+deadline of the LAST `WithContext` option (the caller's context) is at most 3 ms away -/
+def fxFires (timeoutMs : Int) (parents : List (Option Int)) : Bool :=
+  decide (timeoutMs ≤ 3) || (match parents.getLast? with | some (some p) => decide (p ≤ 3) | _ => false)
+
+/-- the property's per-call timeout of the zRPC client: the first `WithCallTimeout` among the options, else the default -/
+def callTimeout (dflt : Int) : List (Option Int) → Int
+  | [] => dflt
+  | some t :: _ => t
+  | none :: rest => callTimeout dflt rest
+
 end Spec
 end GoZero.C04
